@@ -1310,6 +1310,13 @@ class ItemSpaceParent(ItemFactoryImpl, BaseNamespaceReferrer, HasFormula):
             # Set refs
             refs = params.get("refs", None)
             # TODO: check if refs is a dict with str keys
+            if refs:
+                for name in refs:
+                    if name in base.cells or name in base.named_spaces:
+                        raise ValueError(
+                            "Reference '%s' conflicts with "
+                            "a member of '%s'" % (name, base.get_fullname())
+                        )
 
         else:
             raise ValueError("Space formula must return either dict or None")
